@@ -1256,43 +1256,43 @@ Section Correct.
     - (* plus *)
       assert (Hx : locally x0 (fun t => domx t x)) by (apply IH; cbn [In]; auto).
       assert (Hy : locally x0 (fun t => domx t y)) by (apply IH; cbn [In]; auto).
-      generalize (filter_and _ _ Hx Hy). apply filter_imp. intros t [H1 H2]. apply dom_plus; assumption.
+      generalize (filter_and _ _ Hx Hy). apply filter_imp. intros t [Q1 Q2]. apply dom_plus; assumption.
     - assert (Hx : locally x0 (fun t => domx t x)) by (apply IH; cbn [In]; auto).
       assert (Hy : locally x0 (fun t => domx t y)) by (apply IH; cbn [In]; auto).
-      generalize (filter_and _ _ Hx Hy). apply filter_imp. intros t [H1 H2]. apply dom_minus; assumption.
+      generalize (filter_and _ _ Hx Hy). apply filter_imp. intros t [Q1 Q2]. apply dom_minus; assumption.
     - assert (Hx : locally x0 (fun t => domx t x)) by (apply IH; cbn [In]; auto).
       assert (Hy : locally x0 (fun t => domx t y)) by (apply IH; cbn [In]; auto).
-      generalize (filter_and _ _ Hx Hy). apply filter_imp. intros t [H1 H2]. apply dom_times; assumption.
+      generalize (filter_and _ _ Hx Hy). apply filter_imp. intros t [Q1 Q2]. apply dom_times; assumption.
     - (* divide *)
       assert (Hx : locally x0 (fun t => domx t x)) by (apply IH; cbn [In]; auto).
       assert (Hy : locally x0 (fun t => domx t y)) by (apply IH; cbn [In]; auto).
       match goal with H : dom Phi ws en0 y |- _ => destruct (dom_local _ H) as (fy & dy & Ly & Dfy & Ey) end.
       assert (Hnz : fy x0 <> 0) by congruence.
       generalize (filter_and _ _ (filter_and _ _ Hx Hy) (filter_and _ _ Ly (locally_neq0 _ _ _ Dfy Hnz))).
-      apply filter_imp. intros t [[H1 H2] [H3 H4]]. eapply dom_divide; eassumption.
+      apply filter_imp. intros t [[Q1 Q2] [Q3 Q4]]. eapply dom_divide; eassumption.
     - (* power *)
       assert (Hx : locally x0 (fun t => domx t x)) by (apply IH; cbn [In]; auto).
       assert (Hy : locally x0 (fun t => domx t y)) by (apply IH; cbn [In]; auto).
       match goal with H : dom Phi ws en0 x |- _ => destruct (dom_local _ H) as (fx & dx & Lx & Dfx & Ex) end.
       assert (Hpos : 0 < fx x0) by (replace (fx x0) with v by congruence; assumption).
       generalize (filter_and _ _ (filter_and _ _ Hx Hy) (filter_and _ _ Lx (locally_pos _ _ _ Dfx Hpos))).
-      apply filter_imp. intros t [[H1 H2] [H3 H4]]. eapply dom_power; eassumption.
+      apply filter_imp. intros t [[Q1 Q2] [Q3 Q4]]. eapply dom_power; eassumption.
     - assert (Hx : locally x0 (fun t => domx t x)) by (apply IH; cbn [In]; auto).
-      generalize Hx. apply filter_imp. intros t H1. apply dom_uminus; assumption.
+      generalize Hx. apply filter_imp. intros t Q1. apply dom_uminus; assumption.
     - assert (Hx : locally x0 (fun t => domx t x)) by (apply IH; cbn [In]; auto).
-      generalize Hx. apply filter_imp. intros t H1. apply dom_exp; assumption.
+      generalize Hx. apply filter_imp. intros t Q1. apply dom_exp; assumption.
     - (* log *)
       assert (Hx : locally x0 (fun t => domx t x)) by (apply IH; cbn [In]; auto).
       match goal with H : dom Phi ws en0 x |- _ => destruct (dom_local _ H) as (fx & dx & Lx & Dfx & Ex) end.
       assert (Hpos : 0 < fx x0) by (replace (fx x0) with v by congruence; assumption).
       generalize (filter_and _ _ Hx (filter_and _ _ Lx (locally_pos _ _ _ Dfx Hpos))).
-      apply filter_imp. intros t [H1 [H3 H4]]. eapply dom_log; eassumption.
+      apply filter_imp. intros t [Q1 [Q3 Q4]]. eapply dom_log; eassumption.
     - assert (Hx : locally x0 (fun t => domx t x)) by (apply IH; cbn [In]; auto).
-      generalize Hx. apply filter_imp. intros t H1. apply dom_sin; assumption.
+      generalize Hx. apply filter_imp. intros t Q1. apply dom_sin; assumption.
     - assert (Hx : locally x0 (fun t => domx t x)) by (apply IH; cbn [In]; auto).
-      generalize Hx. apply filter_imp. intros t H1. apply dom_cos; assumption.
+      generalize Hx. apply filter_imp. intros t Q1. apply dom_cos; assumption.
     - assert (Hx : locally x0 (fun t => domx t x)) by (apply IH; cbn [In]; auto).
-      generalize Hx. apply filter_imp. intros t H1. apply dom_normalcdf; assumption.
+      generalize Hx. apply filter_imp. intros t Q1. apply dom_normalcdf; assumption.
     - (* powc *)
       assert (Hx : locally x0 (fun t => domx t x)) by (apply IH; cbn [In]; auto).
       match goal with H : dom Phi ws en0 x |- _ => destruct (dom_local _ H) as (fx & dx & Lx & Dfx & Ex) end.
@@ -1305,7 +1305,7 @@ Section Correct.
           + rewrite <- Ev in Hnz. generalize (locally_neq0 _ _ _ Dfx Hnz). apply filter_imp. intros t Ht. right. exact Ht.
         - rewrite <- Ev in Hok. exact (locally_pos _ _ _ Dfx Hok). }
       generalize (filter_and _ _ Hx (filter_and _ _ Lx Hok')).
-      apply filter_imp. intros t [H1 [H3 H4]]. eapply dom_powc; eassumption.
+      apply filter_imp. intros t [Q1 [Q3 Q4]]. eapply dom_powc; eassumption.
     - (* MultSum *)
       match goal with H : Forall _ kids |- _ => rename H into Hk; rewrite Forall_forall in Hk end.
       generalize (locally_Forall (fun t k => domx t k) kids (fun k Hin => IH k Hin (Hk k Hin))).
@@ -1363,3 +1363,139 @@ Section Correct.
       rewrite <- Hv. symmetry. apply pfree_const. apply Havs'. eapply assoc_Z_In; exact Ha.
   Qed.
 End Correct.
+
+(* ------------------------------------------------------------------ statements at a point of the parameter space *)
+Lemma set_name_self b x (l : lookup) : l b = Some x -> set_name b x l = l.
+Proof.
+  intros H. apply FunctionalExtensionality.functional_extensionality. intros n.
+  unfold set_name. destruct (String.eqb_spec n b) as [->|]; [symmetry; exact H | reflexivity].
+Qed.
+
+Lemma upd_self en w x : wrt_val en w = Some x -> upd en w x = en.
+Proof.
+  destruct en as [eb evr ed erv eds ers], w; cbn [wrt_val upd e_beta e_var e_rv e_draw e_draws e_rows]; intros H;
+    rewrite set_name_self by exact H; reflexivity.
+Qed.
+
+Lemma set_name_twice b x y (l : lookup) : set_name b x (set_name b y l) = set_name b x l.
+Proof.
+  apply FunctionalExtensionality.functional_extensionality. intros n.
+  unfold set_name. destruct (String.eqb n b); reflexivity.
+Qed.
+
+Lemma upd_twice en w x y : upd (upd en w y) w x = upd en w x.
+Proof. destruct w; cbn [upd e_beta e_var e_rv e_draw e_draws e_rows]; rewrite set_name_twice; reflexivity. Qed.
+
+Lemma wrt_eqb_eq a b : wrt_eqb a b = true <-> a = b.
+Proof.
+  destruct a, b; cbn [wrt_eqb]; split; intros H; try discriminate;
+    try (apply String.eqb_eq in H; subst; reflexivity);
+    try (injection H as <-; apply String.eqb_refl).
+Qed.
+
+Lemma wrt_val_upd_same en w x : wrt_val (upd en w x) w = Some x.
+Proof. destruct w; cbn [wrt_val upd e_beta e_var e_rv]; apply set_name_same. Qed.
+
+Lemma wrt_val_upd_other en w w' x : wrt_eqb w w' = false -> wrt_val (upd en w' x) w = wrt_val en w.
+Proof.
+  destruct w, w'; cbn [wrt_eqb wrt_val upd e_beta e_var e_rv]; intros H; try reflexivity;
+    apply set_name_other; exact H.
+Qed.
+
+Section AtPoint.
+  Variable Phi : R -> R.
+  Hypothesis Phi_derive : forall x, is_derive Phi x (D2R inv_sqrt_2pi * exp (- (x * x / 2))).
+  Variable ws : list wrt.
+  Variable en : env.
+  Notation ev := (evalX Phi).
+
+  (* T02a at the point en: the value of [D w e] is the partial derivative with respect to w *)
+  Theorem D_correct_at w x0 e :
+    In w ws -> wrt_val en w = Some x0 -> dom Phi ws en e ->
+    is_derive (fun x => valR (ev e (upd en w x))) x0 (valR (ev (D w e) en)).
+  Proof.
+    intros Hw Hv Hd. pose proof (D_correct Phi Phi_derive ws w Hw en x0 e) as H.
+    rewrite (upd_self en w x0 Hv) in H. exact (H Hd).
+  Qed.
+
+  Theorem D_value_at w x0 e :
+    In w ws -> wrt_val en w = Some x0 -> dom Phi ws en e -> exists d, ev (D w e) en = XR d.
+  Proof.
+    intros Hw Hv Hd. pose proof (D_value Phi Phi_derive ws w Hw en x0 e) as H.
+    rewrite (upd_self en w x0 Hv) in H. exact (H Hd).
+  Qed.
+
+  Theorem dom_D_at w x0 e :
+    In w ws -> wrt_val en w = Some x0 -> dom Phi ws en e -> dom Phi ws en (D w e).
+  Proof.
+    intros Hw Hv Hd. pose proof (dom_D Phi Phi_derive ws w Hw en x0 e) as H.
+    rewrite (upd_self en w x0 Hv) in H. exact (H Hd).
+  Qed.
+
+  (* the (w, w') Hessian tree is the derivative with respect to w' of the w-th gradient tree *)
+  Theorem hess_correct w w' x0 x0' e :
+    In w ws -> In w' ws -> wrt_val en w = Some x0 -> wrt_val en w' = Some x0' -> dom Phi ws en e ->
+    is_derive (fun x => valR (ev (D w e) (upd en w' x))) x0' (valR (ev (D w' (D w e)) en)).
+  Proof.
+    intros Hw Hw' Hv Hv' Hd.
+    apply (D_correct_at w' x0' (D w e) Hw' Hv'). exact (dom_D_at w x0 e Hw Hv Hd).
+  Qed.
+
+  (* T02b: it is the second partial derivative of the value.  Mixed entry (w <> w'): *)
+  Theorem hess_is_second_derivative_mixed w w' x0 x0' e :
+    In w ws -> In w' ws -> wrt_eqb w w' = false ->
+    wrt_val en w = Some x0 -> wrt_val en w' = Some x0' -> dom Phi ws en e ->
+    is_derive (fun x' => Derive (fun x => valR (ev e (upd (upd en w' x') w x))) x0) x0'
+              (valR (ev (D w' (D w e)) en)).
+  Proof.
+    intros Hw Hw' Hne Hv Hv' Hd.
+    apply (is_derive_ext_loc (fun x' => valR (ev (D w e) (upd en w' x')))).
+    - assert (Hd0 : dom Phi ws (upd en w' x0') e) by (rewrite (upd_self en w' x0' Hv'); exact Hd).
+      generalize (dom_open Phi Phi_derive ws w' Hw' en x0' e Hd0). apply filter_imp. intros x' Hx'.
+      symmetry. apply is_derive_unique.
+      assert (Hvx : wrt_val (upd en w' x') w = Some x0) by (rewrite wrt_val_upd_other by exact Hne; exact Hv).
+      pose proof (D_correct Phi Phi_derive ws w Hw (upd en w' x') x0 e) as HD.
+      rewrite (upd_self _ w x0 Hvx) in HD. exact (HD Hx').
+    - exact (hess_correct w w' x0 x0' e Hw Hw' Hv Hv' Hd).
+  Qed.
+
+  (* diagonal entry *)
+  Theorem hess_is_second_derivative_diag w x0 e :
+    In w ws -> wrt_val en w = Some x0 -> dom Phi ws en e ->
+    is_derive (fun x' => Derive (fun x => valR (ev e (upd en w x))) x') x0
+              (valR (ev (D w (D w e)) en)).
+  Proof.
+    intros Hw Hv Hd.
+    apply (is_derive_ext_loc (fun x' => valR (ev (D w e) (upd en w x')))).
+    - assert (Hd0 : dom Phi ws (upd en w x0) e) by (rewrite (upd_self en w x0 Hv); exact Hd).
+      generalize (dom_open Phi Phi_derive ws w Hw en x0 e Hd0). apply filter_imp. intros x' Hx'.
+      symmetry. apply is_derive_unique.
+      exact (D_correct Phi Phi_derive ws w Hw en x' e Hx').
+    - exact (hess_correct w w x0 x0 e Hw Hw Hv Hv Hd).
+  Qed.
+
+  (* T02d (first half): entry i of the gradient / (i, j) of the Hessian belongs to the i-th
+     (and j-th) name of the list *)
+  Theorem grad_nth names e i :
+    (i < List.length names)%nat ->
+    nth i (grad names e) zero = D (WBeta (nth i names EmptyString)) e.
+  Proof.
+    intros Hi. unfold grad.
+    rewrite (nth_indep _ zero (D (WBeta EmptyString) e)) by (rewrite map_length; exact Hi).
+    exact (map_nth (fun b => D (WBeta b) e) names EmptyString i).
+  Qed.
+
+  Theorem hess_nth names e i j :
+    (i < List.length names)%nat -> (j < List.length names)%nat ->
+    nth j (nth i (hess names e) []) zero =
+    D (WBeta (nth j names EmptyString)) (D (WBeta (nth i names EmptyString)) e).
+  Proof.
+    intros Hi Hj. unfold hess.
+    set (row := fun b => map (fun b' => D (WBeta b') (D (WBeta b) e)) names).
+    rewrite (nth_indep _ [] (row EmptyString)) by (rewrite map_length; exact Hi).
+    rewrite (map_nth row names EmptyString i). unfold row.
+    set (cell := fun b' => D (WBeta b') (D (WBeta (nth i names EmptyString)) e)).
+    rewrite (nth_indep _ zero (cell EmptyString)) by (rewrite map_length; exact Hj).
+    exact (map_nth cell names EmptyString j).
+  Qed.
+End AtPoint.
